@@ -73,3 +73,53 @@ Proof. exact pdecl_file_info. Qed.
 Theorem C17_file_info_not_before : forall ts sub f pos a pos',
   pdecl ts sub (S f) pos = POk (Some a, pos') -> exists i, pos <= i <= pos' /\ fi_of a = cur ts i.
 Proof. exact pdecl_file_info_not_before. Qed.
+
+(** COMPOSED, on source text through the whole pipeline ([assemble_source]).  "The reported
+    location does not depend on what precedes the statement, only on how many lines do":
+    (1) comment / blank lines [pad] put in front of ANY source shift every report (scanner error,
+    parser error token, NodeError site) by exactly [count_nl pad] lines — same file, message,
+    column, quoted text — and change nothing else (same blocks and labels on success);
+    (2) two layouts [pre1], [pre2] of the same prefix statements (same token stream, any
+    distribution over lines) followed by the same [rest]: a NodeError raised for a statement of
+    [rest] is reported with the same token, column and file, its line moved by the difference of
+    the prefixes' line counts.  Both rest on: the scanner is compositional at line ends, the parser
+    never reads positions, code generation and the passes never read positions
+    ([parse_program_related], [assemble_program_rel]).  Restriction: no included file
+    ([sf_text fs = []]; an included file's own tokens are not shifted). *)
+From A816 Require Import Model.Assemble Proofs.ScannerShift Proofs.ScannerLayout Proofs.LocationText.
+Theorem C17_leading_lines : forall t fs c fname pad cp eofp lp,
+  lexicon_ok (lv_lex t) = true -> ends_nl pad ->
+  scan (lv_lex t) fname pad = ScanOk (cp ++ [eofp]) lp ->
+  Forall (fun x => t_type x = T_COMMENT) cp -> sf_text fs = [] ->
+  forall src,
+  result_shifted (count_nl pad) (assemble_source t fs c fname src) (assemble_source t fs c fname (pad ++ src)).
+Proof. exact leading_lines_shift. Qed.
+Theorem C17_prefix_only_counts : forall t fs c fname pre1 pre2 tp1 tp2 e1 e2 l1 l2,
+  lexicon_ok (lv_lex t) = true -> ends_nl pre1 -> ends_nl pre2 ->
+  scan (lv_lex t) fname pre1 = ScanOk (tp1 ++ [e1]) l1 ->
+  scan (lv_lex t) fname pre2 = ScanOk (tp2 ++ [e2]) l2 ->
+  Forall2 (fun x y => t_type y = t_type x /\ t_value y = t_value x) tp1 tp2 ->
+  Forall (fun x => forall p, t_pos x = Some p -> tp_line p < Z.of_nat (count_nl pre1)) tp1 ->
+  sf_text fs = [] ->
+  forall rest kd s p,
+  assemble_source t fs c fname (pre1 ++ rest) = AExc kd (Some s) -> t_pos s = Some p ->
+  Z.of_nat (count_nl pre1) <= tp_line p ->
+  exists s', assemble_source t fs c fname (pre2 ++ rest) = AExc kd (Some s') /\
+             t_type s' = t_type s /\ t_value s' = t_value s /\
+             t_pos s' = Some {| tp_line := tp_line p + (Z.of_nat (count_nl pre2) - Z.of_nat (count_nl pre1));
+                                tp_col := tp_col p; tp_file := tp_file p |}.
+Proof. exact prefix_only_counts_site. Qed.
+(** Every token of the part behind a prefix of whole lines has the position of the same token
+    scanned alone, its line increased by the prefix's line count, and quotes the same source line. *)
+Theorem C17_rest_tokens : forall lx file pre rest tp eofp lp toks lines t,
+  lexicon_ok lx = true -> ends_nl pre ->
+  scan lx file pre = ScanOk (tp ++ [eofp]) lp ->
+  scan lx file rest = ScanOk toks lines ->
+  In t toks -> t_type t <> T_COMMENT ->
+  exists off lines',
+    scan lx file (pre ++ rest) = ScanOk (tp ++ map (shift_tok (count_nl pre)) toks) lines' /\
+    tok_at rest file off t /\
+    t_pos (shift_tok (count_nl pre) t) =
+      Some {| tp_line := Z.of_nat (count_nl pre + line_of rest off); tp_col := col_of rest off; tp_file := file |} /\
+    nth_error lines' (count_nl pre + line_of rest off) = Some (line_text rest (line_of rest off)).
+Proof. exact rest_token_location. Qed.
